@@ -183,10 +183,14 @@ Fixpoint enc_segs (fuel : nat) (g : geom) (src : list Z) (s : Z) (st : est) : ou
     else Ok st
   end.
 
-(* encodeFrame. fuel 16: NextSegment panics at the 16th segment. After the segment loop:
-   if encoder.offsetOverflow { return error } (a segment offset did not fit 32 bits). *)
+(* encodeFrame at geometry level. Checks as coded: len(src) == 0; Width == 0 || Height == 0
+   (npix = Width*Height = 0 for uint16 fields); numberOfSegments outside 1..15. (BitsAllocated
+   == 0 is a FrameInfo-level check: rle_encode_frame.) fuel 16 >= 15 segments + 1. After the
+   segment loop: if encoder.offsetOverflow { return error }. *)
 Definition rle_encode (g : geom) (src : list Z) : outcome (list Z) :=
   if zlen src =? 0 then Err
+  else if g_npix g =? 0 then Err
+  else if (nseg g <? 1) || (nseg g >? 15) then Err
   else obind (enc_segs 16 g src 0 e_init) (fun st =>
          if e_ovf st then Err else Ok (get_buffer (make_even st))).
 
@@ -306,38 +310,66 @@ Fixpoint dec_segs (fuel : nat) (g : geom) (d : rdec) (s : Z) (buf : list Z) (ble
 Definition frame_size (g : geom) : Z :=
   let fs := frame_len g in if Z.odd fs then fs + 1 else fs.
 
-(* decodeFrame without the allocation check (see rle_decode_frame). fuel 16: the segment
-   count was checked against the header value, which is at most 15. *)
-Definition rle_decode (g : geom) (data : list Z) : outcome (list Z) :=
+Definition max_alloc : Z := 2 ^ 48.
+
+(* decodeFrame at geometry level, in the order of the code: len(src) == 0; Width == 0 ||
+   Height == 0 (npix = 0); newRLEDecoder; segment count against the description; only then
+   frameSize and make([]byte, frameSize). chk = true models the allocation faithfully:
+   runtime.makeslice panics ("len out of range") iff the size exceeds maxAlloc = 2^48 on
+   linux/amd64 (rle_alloc_bound in RleSafeProofs: unreachable for uint16 FrameInfo).
+   chk = false is the clean model for geometries with npix an arbitrary positive Z.
+   fuel 16: the segment count equals the header value, which is at most 15. *)
+Definition rle_decode_gen (chk : bool) (g : geom) (data : list Z) : outcome (list Z) :=
   if zlen data =? 0 then Err
+  else if g_npix g =? 0 then Err
   else
-    let fs := frame_size g in
     obind (new_decoder data) (fun d =>
-      if d_nseg d =? nseg g then dec_segs 16 g d 0 (zeros fs) fs else Err).
+      if d_nseg d =? nseg g then
+        let fs := frame_size g in
+        if chk && (fs >? max_alloc) then Panic
+        else dec_segs 16 g d 0 (zeros fs) fs
+      else Err).
+
+Definition rle_decode (g : geom) (data : list Z) : outcome (list Z) := rle_decode_gen false g data.
 
 (* ------------------------------------------------------------------ arbitrary FrameInfo *)
 (* imagetypes.FrameInfo: all fields uint16 (values in [0,65536)). *)
 Record frameinfo := mkFI { fi_width : Z; fi_height : Z; fi_bits : Z; fi_spp : Z; fi_planarconf : Z }.
 
-(* int((info.BitsAllocated-1)/8 + 1) in uint16 arithmetic: BitsAllocated = 0 gives 8192 *)
+(* int((info.BitsAllocated-1)/8 + 1) in uint16 arithmetic (BitsAllocated = 0 would give 8192;
+   it is rejected before) *)
 Definition fi_ba (fi : frameinfo) : Z := wrapU 16 (wrapU 16 (fi_bits fi - 1) / 8 + 1).
 Definition fi_geom (fi : frameinfo) : geom :=
   mkG (fi_ba fi) (fi_spp fi) (negb (fi_planarconf fi =? 0)) (fi_width fi * fi_height fi).
 
-(* runtime.makeslice panics ("len out of range") iff the size exceeds maxAlloc = 2^48 on
-   linux/amd64 (frameSize < 2^61 never overflows int). Between available memory and 2^48 the
-   Go runtime dies with a fatal out-of-memory error, which no model outcome represents. *)
-Definition max_alloc : Z := 2 ^ 48.
+(* the checks on the description that precede everything else in both directions *)
+Definition fi_rejected (fi : frameinfo) : bool :=
+  (fi_width fi =? 0) || (fi_height fi =? 0) || (fi_bits fi =? 0).
 
 Definition rle_decode_frame (fi : frameinfo) (data : list Z) : outcome (list Z) :=
   if zlen data =? 0 then Err
-  else if frame_size (fi_geom fi) >? max_alloc then Panic
-  else rle_decode (fi_geom fi) data.
+  else if fi_rejected fi then Err
+  else rle_decode_gen true (fi_geom fi) data.
 
-(* Same question without building anything: outcome class of the steps before the first
-   segment is decoded (used where frameSize is too large to materialise). *)
+Definition rle_encode_frame (fi : frameinfo) (src : list Z) : outcome (list Z) :=
+  if zlen src =? 0 then Err
+  else if fi_rejected fi then Err
+  else rle_encode (fi_geom fi) src.
+
+(* the size passed to make([]byte, .) by decodeFrame, when it gets that far *)
+Definition rle_decode_alloc (fi : frameinfo) (data : list Z) : option Z :=
+  if zlen data =? 0 then None
+  else if fi_rejected fi then None
+  else match new_decoder data with
+       | Ok d => if d_nseg d =? nseg (fi_geom fi) then Some (frame_size (fi_geom fi)) else None
+       | _ => None
+       end.
+
+(* outcome class of the steps before the first segment is decoded *)
 Definition rle_decode_frame_prefix (fi : frameinfo) (data : list Z) : outcome unit :=
   if zlen data =? 0 then Err
-  else if frame_size (fi_geom fi) >? max_alloc then Panic
+  else if fi_rejected fi then Err
   else obind (new_decoder data) (fun d =>
-         if d_nseg d =? nseg (fi_geom fi) then Ok tt else Err).
+         if d_nseg d =? nseg (fi_geom fi) then
+           (if frame_size (fi_geom fi) >? max_alloc then Panic else Ok tt)
+         else Err).
